@@ -19,11 +19,11 @@ type brModel struct {
 	ring  []bool // count based: last cap results, true = failure
 	timed []brRec
 	// the closed-state window is kept while open (metrics report it)
-	half      []bool // half-open results (ring of capacity)
-	permitted int
-	amb       bool // the last decision was ambiguous
+	half       []bool // half-open results (ring of capacity)
+	permitted  int
+	amb        bool         // the last decision was ambiguous
 	oldMetrics [][]brCounts // admissible metrics of the state being left, per transition made by the last operation
-	now       time.Duration
+	now        time.Duration
 }
 
 type brRec struct {
